@@ -325,6 +325,27 @@ func runMatch(tier string, seed int64) (string, bool) {
 		}
 	})
 	addSample(fmt.Sprintf("Match([%q], Suffix|Smallest, %q)", pats[len(pats)/2], subs[len(subs)/2]))
+	// bracket expressions, exhaustively: optional negation, up to three members
+	// (a leading "]" is a member; "*", "?" and regexp metacharacters inside a
+	// bracket stand for themselves), alone and followed by a star
+	members := []string{"]", "a", "*", "?", "-", "!", "(", "."}
+	var sets []string
+	for _, neg := range []string{"", "!", "^"} {
+		for _, ms := range words(members, 3) {
+			sets = append(sets, "["+neg+ms+"]")
+		}
+	}
+	bsub := words([]string{"a", "]", "*", "?", "(", "s", ":", ".", "-", "!", ")"}, 2)
+	parallel(len(sets), func(i int) {
+		for _, tail := range []string{"", "*", "a"} {
+			for _, s := range bsub {
+				for _, m := range modes {
+					checkMatch([]string{sets[i] + tail}, m, s)
+				}
+			}
+		}
+	})
+	addSample(fmt.Sprintf("Match([%q], Prefix|Largest, %q)", sets[len(sets)/3]+"*", bsub[len(bsub)/2]))
 	// two-pattern lists over a small alphabet
 	p2 := words([]string{"a", "b", "*", "?", "|"}, 2)
 	s2 := words([]string{"a", "b", "|"}, 3)
@@ -363,5 +384,5 @@ func runMatch(tier string, seed int64) (string, bool) {
 	}
 	parallel(n, func(i int) { checkMatch([]string{rcs[i].p}, rcs[i].m, rcs[i].s) })
 	addSample(fmt.Sprintf("Match([%q], %d, %q) (random part)", rcs[0].p, rcs[0].m, rcs[0].s))
-	return fmt.Sprintf("exhaustive: single patterns of <= %d symbols over %d, subjects of <= %d over %d, 4 modes; pairs of patterns of <= 2 symbols over {a,b,*,?,|} on subjects <= 3; plus %d seeded random patterns with classes, ranges, multi-byte runes and regexp metacharacters", pl, len(palpha), sl, len(salpha), n), true
+	return fmt.Sprintf("exhaustive: single patterns of <= %d symbols over %d, subjects of <= %d over %d, 4 modes; all bracket expressions with optional negation and <= 3 members over {],a,*,?,-,!,(,.} alone and followed by * or a, on subjects <= 2 over 11 symbols; pairs of patterns of <= 2 symbols over {a,b,*,?,|} on subjects <= 3; plus %d seeded random patterns with classes, ranges, multi-byte runes and regexp metacharacters", pl, len(palpha), sl, len(salpha), n), true
 }
